@@ -37,10 +37,11 @@ def step (d : DState) (line : String) : DState × String :=
     | ["sleep", _] => (d, "ok")
     | ["dump"] => (d, Driver.dumpState s)
     | "api" :: method :: rest =>
-      (match Driver.callApi { s with signalled := [] } now method (Driver.groups rest) choice with
+      (match Driver.callApi { s with signalled := [], held := [], hung := false } now method (Driver.groups rest) choice with
        | none => (d, "bad-op")
        | some (s', out) =>
-         (d.put (Store.syncShared s'), Driver.fmtOut (method == "ZUnion" || method == "ZInter") out))
+         if s'.hung then (d.put (Store.syncShared s'), "HANG") else
+         (d.put (Store.syncShared { s' with held := [] }), Driver.fmtOut (method == "ZUnion" || method == "ZInter") out))
     | _ => (d, "bad-op")
 
 partial def loop (h : IO.FS.Stream) (out : IO.FS.Stream) (st : DState) : IO Unit := do
